@@ -114,6 +114,9 @@ def one_case(spec, opts, fault, ftype="exception", pre_runs=0):
             for p, d in t.input_task_list:
                 if int(d) != 0:
                     continue
+                if p.ID not in fwd:
+                    out.append(("C17:task-is-linked-to-a-task-that-is-no-longer-in-the-workflow", {"task": t.ID, "missing": p.ID}))
+                    continue
                 lt, lp = fwd[t.ID], fwd[p.ID]
                 ks = [k for k, s in enumerate(lt) if s == S.T_WORKING]
                 if ks:
@@ -222,6 +225,18 @@ def items(tier):
     for sp in F.usage_specs():
         if "parent-child:one-cap1" not in sp["label"] and ("bottom-up:fac" not in sp["label"] or sp["label"].endswith("two:both")):
             out.append((sp, {"rule": "TSLACK", "due": False, "rev": True, "absence": [], "max_time": F.seq_bound(sp) + 12}))
+    # links declared with extend_input_task_list (a list, a one-shot generator); a user's own automatic task that happens to be called "auto"
+    for fl in list(F.flows(3, ("FS",), (1, 2)))[::3]:
+        if fl["links"]:
+            for api in ("extend", "extend-gen"):
+                sp = dict(F.with_teams(fl, "DED"), link_api=api)
+                for rev in (True, False):
+                    out.append((sp, {"rule": "TSLACK", "due": False, "rev": rev, "absence": [], "max_time": F.seq_bound(sp) + 12}))
+    for dues in ((4, 9, 6), (5, 5, 5)):
+        fl = {"tasks": [{"name": "T0", "work": 2.0, "due": dues[0]}, {"name": "auto", "work": 2.0, "auto": True, "due": dues[1]}, {"name": "T2", "work": 1.0, "due": dues[2]}], "links": [[0, 1, "FS"], [1, 2, "FS"]]}
+        sp = F.with_teams(fl, "POOL2")
+        for dflag, rev in itertools.product((False, True), repeat=2):
+            out.append((sp, {"rule": "TSLACK", "due": dflag, "rev": rev, "absence": [], "max_time": 20}))
     # two tasks sharing ONE list object as their input list (design -> build_a, build_b -> test)
     for wv in ((2, 2, 3, 1), (1, 3, 2, 2)):
         fl = {"tasks": [{"name": F.tname(i), "work": float(w)} for i, w in enumerate(wv)], "links": [[0, 1, "FS"], [0, 2, "FS"], [1, 3, "FS"], [2, 3, "FS"]]}
